@@ -80,6 +80,34 @@ Implements(ssa, asm, nout) ==
      /\ DOMAIN s[3] = 0..(nout - 1) /\ DOMAIN a[3] = DOMAIN s[3]
      /\ \A k \in DOMAIN s[3] : a[3][k] = s[3][k]
 
+(***************************************************************************)
+(* Resolves(parent, trace, child): the child's root terms equal the        *)
+(* parent's root terms after every decided clause (entry 1 = left,         *)
+(* 2 = right) is replaced by the chosen operand.  trace[k] belongs to the  *)
+(* k-th choice clause in evaluation order.  A future simplifier may fold   *)
+(* more than this, so a failure here with agreeing values is reported as   *)
+(* SPEC-DRIFT, never as a violation.                                       *)
+(***************************************************************************)
+IsChoiceOp(op) == op[1] \in {4, 6} /\ op[2] \in {"Min", "Max", "And", "Or"}
+\* st = <<tab, env, outs, ok, k>> ; k = number of choice clauses executed so far
+ResStep(st, op, trace) ==
+  IF ~IsChoiceOp(op) THEN LET r == SymStep(<<st[1], st[2], st[3], st[4]>>, op) IN <<r[1], r[2], r[3], r[4], st[5]>>
+  ELSE LET k == st[5] + 1
+           e == IF k <= Len(trace) THEN trace[k] ELSE 3
+       IN CASE e = 1 -> <<st[1], Put(st[2], op[3], Get(st[2], op[4])), st[3], st[4] /\ Get(st[2], op[4]) # 0, k>>
+            [] e = 2 /\ op[1] = 6 -> <<st[1], Put(st[2], op[3], Get(st[2], op[5])), st[3], st[4] /\ Get(st[2], op[5]) # 0, k>>
+            [] e = 2 /\ op[1] = 4 -> LET i == Intern(st[1], <<"Imm", -1, -1, op[6]>>)
+                                     IN <<i[1], Put(st[2], op[3], i[2]), st[3], st[4], k>>
+            [] OTHER -> LET r == SymStep(<<st[1], st[2], st[3], st[4]>>, op) IN <<r[1], r[2], r[3], r[4], k>>
+RECURSIVE ResExec(_, _, _, _)
+ResExec(st, tape, i, trace) == IF i < 1 THEN st ELSE ResExec(ResStep(st, tape[i], trace), tape, i - 1, trace)
+Resolves(parent, trace, child, nout) ==
+  LET p == ResExec(<< <<>>, EmptyEnv, EmptyEnv, TRUE, 0>>, parent, Len(parent), trace)
+      c == SymExec(<<p[1], EmptyEnv, EmptyEnv, TRUE>>, child, Len(child))
+  IN /\ c[4]
+     /\ DOMAIN p[3] = 0..(nout - 1) /\ DOMAIN c[3] = DOMAIN p[3]
+     /\ \A k \in DOMAIN p[3] : c[3][k] = p[3][k]
+
 \* number of choice clauses of a tape
 IsChoice(op) == op[1] \in {4, 6} /\ op[2] \in {"Min", "Max", "And", "Or"}
 CountChoices(tape) == Cardinality({i \in 1..Len(tape) : IsChoice(tape[i])})
